@@ -44,6 +44,19 @@ def run(R):
             "is_flushed() is true exactly when the batch is finished (flushed or cancelled)",
             "is_flushed() no longer means 'finished': a cancelled or failed batch looks pending to the guards that use it "
             "(items can be added to it; an item's value() tries to flush it again)")
+    # state queries only look: asking a pending batch whether it is flushed / cancelled / empty (which str(), to_str() and the debug
+    # dumps do) must not compute - i.e. flush - it
+    from .c18 import guarded_by_computed
+    for qn_ in ("is_flushed", "is_cancelled", "is_empty"):
+        qm = bb.methods.get(qn_)
+        if qm is None:
+            continue
+        for c_ in q.calls(qm.node):
+            if q.call_name(c_) in ("self.error", "self.value", "self", "self._compute", "self.flush"):
+                R.check(guarded_by_computed(qm, c_), "C11.IS-FLUSHED", "%s:%s" % (qm.qualname, q.src(c_)), R.site(qm, c_),
+                        "%s() reads %s only of a finished batch" % (qn_, q.src(c_)),
+                        "%s() evaluates %s on a batch that may be pending: the question itself runs the flush body, finishes the batch and switches "
+                        "the active batch (printing a pending batch flushes it)" % (qn_, q.src(c_)))
     # ---- CANCEL-NOOP
     ca = bb.methods.get("cancel")
     R.need(ca is not None, "anchor vanished: BatchBase.cancel")
@@ -122,7 +135,7 @@ def run(R):
     R.need(cd is not None, "anchor vanished: BatchBase._computed")
     dcfg = cfg_of(cd)
     sw2 = [n for n, c in kit.call_sites(cd, lambda c: q.call_name(c) == "self._try_switch_active_batch")]
-    loops = [dcfg.nodes_for(n)[0] for n in ast.walk(cd.node) if isinstance(n, ast.For) and q.dotted(n.iter) == "self.items"]
+    loops = [dcfg.nodes_for(n)[0] for n in ast.walk(cd.node) if isinstance(n, ast.For) and common.iterates_items(cd.node, n.iter)]
     p = dcfg.find_path([dcfg.entry], loops, N, cut_nodes=sw2)
     R.check(p is None and sw2, "C11.SWITCH-FIRST", cd.qualname, R.site(cd),
             "a finishing batch (also a cancelled one) stops being the active batch before its items are completed",
